@@ -9,7 +9,7 @@ EXPLANATION = ("(1) gix_date::Time::size is abstractly interpreted over all i64 
                "itoa(seconds), SP, a one-byte sign, and two zero-padded 2-digit fields with hours bounded by 99; (2) every loose-object header is built by "
                "encode::loose_header from the size()/len() of the very value that is then written or hashed; (3) for each WriteTo impl the set of header "
                "keywords and the set of self fields/accessors used by size() equals the set used by write_to(); Signature sizes use name, email and time on "
-               "both sides. Decode-equals-value and that ids equal git's are not decided.")
+               "both sides. (4) every constant that write_to() emits only under a condition on some fields is counted by size() under a condition on the same fields. Decode-equals-value and that ids equal git's are not decided.")
 OBJ = r"^gix_object::(commit|tag|tree)::write::<impl gix_object::traits::WriteTo for gix_object::(\w+)(<'_>)?>::%s$"
 ALIAS = {"tree()": "tree", "parents()": "parents", "target()": "target", "to_ref()": None}
 
@@ -58,6 +58,7 @@ def words(db, f):
 
 def run(db, chk):
     line_splitter_agreement(db, chk)
+    separator_guard_agreement(db, chk)
     # (1) Time::size ladder
     ts = db.one(r"^gix_date::time::write::<impl gix_date::Time>::size$")
     try:
@@ -162,3 +163,63 @@ def line_splitter_agreement(db, chk):
         chk.ob("size-and-writer-split-lines-alike", label, got["size"] == got["write_to"], "size() walks values with %s, write_to() with %s" % (got["size"], got["write_to"]),
                key="line-splitter|%s" % label)
     chk.floor("WriteTo impls that split multi-line values", n, 2)
+
+
+def separator_guard_agreement(db, chk):
+    """conditional separators: a constant (NL, SP) that write_to() emits only when some field is present/non-empty must be counted by size() under
+    the SAME condition.  For every direct `write_all(<constant bytes>)` in write_to() the set of self fields its execution depends on (the
+    switches that decide whether the call is reached, `?` propagation excluded) has to equal the guard of some constant addend of size(): the
+    function body itself (no guard) or a closure handed to Option::map_or/map/... on that field.  `NL only if message and signature` against
+    `1 + m.len()` under `signature` is the failing shape: size() is one too large exactly for signed tags without message."""
+    from gx.flow import control_switches
+    pairs = [("Commit", r"^gix_object::commit::write::<impl gix_object::traits::WriteTo for gix_object::Commit>::"),
+             ("CommitRef", r"^gix_object::commit::write::<impl gix_object::traits::WriteTo for gix_object::CommitRef<'_>>::"),
+             ("Tag", r"^gix_object::tag::write::<impl gix_object::traits::WriteTo for gix_object::Tag>::"),
+             ("TagRef", r"^gix_object::tag::write::<impl gix_object::traits::WriteTo for gix_object::TagRef<'_>>::")]
+
+    def self_fields(f, fl, op):
+        return frozenset(r[2][0] for r in fl.roots(op, stop_named=False) if r[0] == "arg" and r[1] == 1 and r[2] and isinstance(r[2][0], str) and r[2][0].startswith("."))
+
+    def guards(f, fl, block):
+        g = set()
+        for b in control_switches(f, block):
+            t = f.term(b)
+            meta = t[6] if len(t) > 6 and isinstance(t[6], list) else []
+            if any(m == "d:QuestionMark" for m in meta):
+                continue
+            g |= self_fields(f, fl, t[1])
+        return frozenset(g)
+    n = 0
+    for label, pre in pairs:
+        w = db.one(pre + "write_to$")
+        s_ = db.one(pre + "size$")
+        wfl, sfl = Flow(w), Flow(s_)
+        # guards of the constant addends of size()
+        sg = set()
+        if any(rv[0] == "bin" and rv[1].startswith("Add") and any("p" not in o and isinstance(o.get("v"), int) and o["v"] > 0 for o in (rv[2], rv[3])) for bi, si, pl, rv, ln, mc in s_.assigns()):
+            sg.add(frozenset())
+        for c in s_.calls():
+            if not c.is_(r"Option::<T>::(map_or|map|map_or_else|and_then)$|Iterator>?::(map|fold|filter_map)$|::(map|map_or)$") or len(c.args) < 2:
+                continue
+            recv = self_fields(s_, sfl, c.args[0])
+            for a in c.args[1:]:
+                for r in (sfl.roots(a, stop_named=False) if "p" in a else []):
+                    if r[0] == "const" and isinstance(r[1], str) and r[1].startswith("agg:"):
+                        nm = r[1][4:].rstrip(":")
+                        g = next((x for x in db.closures_of(s_) if x.name == nm), None)
+                        if g is not None and any(rv[0] == "bin" and rv[1].startswith("Add") and any("p" not in o and isinstance(o.get("v"), int) and o["v"] > 0 for o in (rv[2], rv[3]))
+                                                 for bi, si, pl, rv, ln, mc in g.assigns()):
+                            sg.add(recv)
+        for c in w.calls():
+            if not c.is_(r"io::Write::write_all$|Write>?::write_all$") or len(c.args) < 2:
+                continue
+            r = wfl.roots(c.args[1], stop_named=False)
+            is_const = bool(r) and all(x[0] in ("const", "constdef", "promoted") for x in r)
+            if not is_const:
+                continue
+            n += 1
+            g = guards(w, wfl, c.block)
+            chk.ob("conditional-separator-counted-alike", "%s write_all(const)@%d under %s" % (label, c.line, sorted(g) or "no condition"), g in sg,
+                   "write_to() emits a constant under the condition on %s, size() adds constants only under %s: the declared size differs from the bytes written whenever these conditions differ" % (
+                       sorted(g) or "nothing", sorted(sorted(x) for x in sg)), c.where(), key="separator-guard|%s" % label)
+    chk.floor("direct constant writes in the tag/commit writers", n, 4)
